@@ -212,11 +212,8 @@ Record dtime := mkdt { yr : N; mo : N; dy : N; hh : N; mi : N; ss : N; us : N; t
 
 Definition is_leap (y : N) : bool := ((y mod 4 =? 0) && negb (y mod 100 =? 0) || (y mod 400 =? 0))%N.
 Definition days_in_month (y m : N) : N :=
-  match m with
-  | 2%N => if is_leap y then 29%N else 28%N
-  | 4%N | 6%N | 9%N | 11%N => 30%N
-  | _ => 31%N
-  end.
+  if (m =? 2)%N then (if is_leap y then 29%N else 28%N)
+  else if ((m =? 4) || (m =? 6) || (m =? 9) || (m =? 11))%N then 30%N else 31%N.
 Definition valid_date (y m d : N) : bool :=
   ((1 <=? y) && (y <=? 9999) && (1 <=? m) && (m <=? 12) && (1 <=? d) && (d <=? days_in_month y m))%N.
 Definition valid_tz (o : option Z) : bool :=
@@ -331,6 +328,8 @@ Definition parse_iso (s : str) : option dtime :=
       | None => None end
     | None => None end
   | None => None end.
+(* '"T" in text' : how the typed readers tell a dateTime from a date *)
+Definition has_T (s : str) : bool := existsb (fun c => (c =? c_T)%N) s.
 Definition datetime_decode (t : str) : option dtime := parse_iso t.
 Definition date_decode (t : str) : option dtime := parse_iso t.
 
